@@ -668,3 +668,10 @@ func Logf(format string, a ...any) {
 	s.Log = append(s.Log, fmt.Sprintf("   %d: ", s.step)+fmt.Sprintf(format, a...))
 	s.mu.Unlock()
 }
+
+// Settle waits, on the scheduler goroutine, until every other goroutine of the
+// bubble is durably blocked, without releasing anybody. Harnesses call it
+// between two actions of the root goroutine that each start goroutines with
+// the same entry label, so that task ordinals do not depend on real-time
+// arrival order.
+func (s *Sim) Settle() { synctest.Wait() }
